@@ -623,9 +623,9 @@ def check(prop: str, tier: str, replay: Optional[str]) -> int:
     print(f"[{prop}] replay: {stats}", flush=True)
     if not replay:
         if prop == "C09" and (stats["clash_configs"] == 0 or stats["excluded"] == 0 or stats["overridden"] == 0):
-            raise tlc.MachineryError(f"vacuity: {stats}")
+            v.vacuous(f"vacuity: {stats}")
         if prop == "C15" and (stats["comparam_lookups"] == 0 or stats["default_fallbacks"] == 0):
-            raise tlc.MachineryError(f"vacuity: {stats}")
+            v.vacuous(f"vacuity: {stats}")
     cov = {"states": states, "transitions": trans, "traces_validated_against_impl": stats["configs"],
            "evaluations": stats["views"] * 9 + stats["decodes"] + stats["comparam_lookups"] + stats["accessor_calls"],
            "distinct_nontrivial": stats["configs"],
